@@ -401,6 +401,18 @@ func (bd *BlockDownloader) handleBlock(ctx context.Context, header *wire.BlockHe
 			len(blockTxIDs))
 	}
 
+	// A block with its last transactions repeated has the same merkle root as the real block (the
+	// merkle tree duplicates the last hash of an odd row), but the proofs for the repeated
+	// transactions are not valid. Verify every proof against the header before anything is
+	// confirmed.
+	for i := range merkleProofs {
+		merkleProofs[i].BlockHeader = header
+		merkleProofs[i].BlockHash = &hash
+		if err := merkleProofs[i].Verify(); err != nil {
+			return errors.Wrap(err, "verify merkle proof")
+		}
+	}
+
 	if bd.wasCancelled() {
 		return errBlockDownloadCancelled
 	}
